@@ -3,9 +3,10 @@
       read_some / write_some (::readv / ::writev), each of which transfers at most as many bytes as the adversarial
       transfer schedule says (entry k >= 1: at most k bytes; entry 0: the call fails - error or end of stream;
       exhausted schedule: everything that was asked for).
-   2. messenger::transmit: write header + h.size payload bytes, read the 40 byte answer header INTO THE SAME header
-      object, read h.size payload bytes; on a failure anywhere: close, reconnect (may fail), and run the same loop ONCE
-      more with the header object as it is then - i.e. possibly partly or wholly overwritten by the answer header.
+   2. messenger::transmit: keep a copy of the request header; every attempt first restores the header object from that copy
+      (since /repo d350cd9), writes header + h.size payload bytes, reads the 40 byte answer header INTO THE SAME header
+      object, reads h.size payload bytes; on a failure anywhere: close, reconnect (may fail), and run the same loop ONCE
+      more.  (Before d350cd9 the second attempt started from the header object as the failed read had left it.)
    3. servers that are down (connection refused on reconnect): nworld / nstep on top of Defs.step; an RPC to a server that is
       down is a cppcms_error exception in the calling node. *)
 From Coq Require Import NArith ZArith List Bool.
@@ -65,23 +66,30 @@ Definition attempt (ws rs : list N) (hb mem : bytes) (now : Z) (c : cache) : att
 
 Inductive tx_res := TxReply (h : hdr) (p : bytes) | TxExn.
 
-(* messenger::transmit: second attempt (after a successful reconnect) with the header object as the failure left it *)
+(* `h=request;` at the top of the try block: whatever a failed attempt left in the header object, the next attempt starts
+   from the saved copy of the request header *)
+Definition restore (request after_failure : bytes) : bytes := request.
+
+(* messenger::transmit: second attempt (after a successful reconnect) *)
 Definition transmit (ws1 rs1 : list N) (up : bool) (ws2 rs2 : list N) (h : hdr) (mem : bytes) (now : Z) (c : cache)
   : tx_res * cache :=
-  match attempt ws1 rs1 (hdr_bytes h) mem now c with
+  match attempt ws1 rs1 (restore (hdr_bytes h) (hdr_bytes h)) mem now c with
   | (AReply rh rp, c1) => (TxReply rh rp, c1)
   | (AFail hb, c1) =>
       if up then
-        match attempt ws2 rs2 hb mem now c1 with
+        match attempt ws2 rs2 (restore (hdr_bytes h) hb) mem now c1 with
         | (AReply rh rp, c2) => (TxReply rh rp, c2)
         | (AFail _, c2) => (TxExn, c2)
         end
       else (TxExn, c1)
   end.
 
-(* the request the second attempt sends (for the probe: what a capturing server sees) *)
+(* the request an attempt sends when the header object holds hb (for the probe: what a capturing server sees) *)
 Definition retry_request (hb mem : bytes) : option (hdr * bytes) :=
   match hdr_parse hb with Some h => Some (h, take (h_size h) mem) | None => None end.
+(* the request the SECOND attempt sends after a first attempt that left hb in the header object *)
+Definition second_request (h : hdr) (hb mem : bytes) : option (hdr * bytes) :=
+  retry_request (restore (hdr_bytes h) hb) mem.
 
 (* ---------- servers that are down ---------- *)
 Record nworld := mkNW { nw : world; nw_up : list bool }.
@@ -93,20 +101,7 @@ Fixpoint first_down (u : list bool) (n : nat) : nat :=
   | S m => let j := first_down u m in if Nat.eqb j m then (if is_up u m then S m else m) else j
   end.
 
-(* cache_over_ip::fetch when the RPC is answered `error` - what the retry after a connection failure in the middle of the answer
-   gets (NetProofs.transmit_any_schedule): tcp_cache::fetch says not_found; an L1 hit is purged, the caller sees a miss *)
-Definition lossy_fetch (w : world) (c : nat) (k : bytes) : obs * world :=
-  match nth_error (w_cli w) c with
-  | None => (ObsBad, w)
-  | Some None => (ObsFetch None, w)
-  | Some (Some l1) =>
-      match c_fetch (w_now w) k l1 with
-      | Some _ => (ObsFetch None, set_l1 w c (c_remove k l1))
-      | None => (ObsFetch None, w)
-      end
-  end.
-
-Inductive nop := NOp (o : op) | NDown (s : nat) | NUp (s : nat) | NGarbled (c : nat) (k : bytes).
+Inductive nop := NOp (o : op) | NDown (s : nat) | NUp (s : nat).
 Inductive nobs := NObs (x : obs) | NExn.
 
 Definition set_up (u : list bool) (s : nat) (b : bool) : list bool := upd s b u.
@@ -116,7 +111,6 @@ Definition nstep (x : nworld) (o : nop) : nobs * nworld :=
   match o with
   | NDown s => (NObs ObsNone, mkNW w (set_up u s false))
   | NUp s => (NObs ObsNone, mkNW w (set_up u s true))
-  | NGarbled c k => let (r, w2) := lossy_fetch w c k in (NObs r, mkNW w2 u)
   | NOp (OStore c k v trg dl) =>
       match on_l1 w c (c_remove k) with
       | None => (NObs ObsBad, x)
